@@ -248,6 +248,26 @@ static bool mt_round(uint64_t seed, int worker, long per, long long &n_eval) {
     }
     return true;
 }
+// A caller that refills ONE buffer and checksums it again, inside one function compiled with optimisation against the
+// repository's own mtbl.h: the value must follow the content (a declaration that lets the caller's compiler fold the two
+// calls - e.g. __attribute__((const)) instead of pure - returns the first content's CRC for the second).
+static bool check_refill(const uint8_t *data, size_t n) {
+  static uint8_t buf[4096];
+  if (n == 0 || n > sizeof buf) return true;
+  memcpy(buf, data, n);
+  uint32_t w1 = ref::crc32c_bitwise(buf, n);
+  uint32_t a1 = mtbl_crc32c(buf, n);
+  buf[n / 2] ^= 0x5a;
+  buf[0] += 1;
+  uint32_t w2 = ref::crc32c_bitwise(buf, n);
+  uint32_t a2 = mtbl_crc32c(buf, n);
+  if (a1 != w1 || a2 != w2) {
+    snprintf(g_err, sizeof g_err, "one buffer of %zu bytes checksummed, modified in place and checksummed again in the same function: mtbl_crc32c returned %08x then %08x, the standard CRC-32C values are %08x then %08x",
+             n, a1, a2, w1, w2);
+    return false;
+  }
+  return true;
+}
 static Result run_case(const Case &c) {
   Result r;
   g_have_sse = my_crc32c_sse42_supported();
@@ -269,6 +289,7 @@ static Result run_case(const Case &c) {
   bytes b = c.buf.expand();
   uint32_t want = b.size() <= 4096 ? ref::crc32c_bitwise(U(b), b.size()) : ref::crc32c_ref(U(b), b.size());
   if (!check_buf(U(b), b.size(), c.align, want)) r.failf("%s", g_err);
+  else if (!check_refill(U(b), b.size())) r.failf("%s", g_err);
   r.nontrivial = b.size() >= 1;
   if (b.size() >= 8) r.tag("len_ge8");
   if (b.size() % 8) r.tag("tail_bytes");
